@@ -125,6 +125,41 @@ func drive(lg *sim.Log, seed int64, idx, steps int) {
 	}
 	dts := []time.Duration{time.Hour, 6 * time.Hour, 12*time.Hour + time.Second, 12 * time.Hour, 13 * time.Hour, 24*time.Hour + time.Second,
 		25 * time.Hour, 30 * time.Hour, 49 * time.Hour, 80 * time.Hour, 6 * time.Second}
+	if ranged {
+		// directed opening of the shared-pair runs: two pools of one pair are farmed, fees reach their common collector and are
+		// paid out; then one oracle price of the pair goes away for two epochs (the payout needs one price, the split of the
+		// collector between the two pools needs both) while a gauge created in the fee denom holds coins next to them
+		feeAmt := func() *big.Int { return new(big.Int).Add(amount(3000, 10), big.NewInt(50)) }
+		send := func(denom string) {
+			amt := feeAmt()
+			must(e.App.BankKeeper.SendCoins(e.Ctx, sim.Addr("gc"), fx.pairs[0].GetSwapFeeCollectorAddress(), sdk.NewCoins(coin(denom, amt))))
+			cur = r.node(cur, "SwapFee", map[string]interface{}{"p": 1, "amt": sim.Limbs(amt), "denom": denom}, nil, fx.project(e))
+		}
+		for i, f := range fx.cfg.Farmers[:3] {
+			p := []int{1, np, 1}[i]
+			cur = r.node(cur, "Farm", fx.farm(e, f, p, amount(400, 8), false), nil, fx.project(e))
+		}
+		a := &createArgs{From: "gc", GType: 1, Pool: 2, Tot: 3, depBig: amount(5000, 12), Dur: int64(36 * time.Hour / time.Second),
+			Start: rel(e.Ctx.BlockTime()), Denom: "ucmdx"}
+		fx.createGauge(e, a)
+		cur = r.node(cur, "CreateGauge", a, nil, fx.project(e))
+		send("ucmdx")
+		for i := 0; i < 3; i++ {
+			cur = fx.block(r, e, cur, 25*time.Hour)
+		}
+		off := fx.cfg.Pools[0].Quote
+		if rng.Intn(2) == 0 {
+			off = fx.cfg.Pools[0].Base
+		}
+		fx.setPrice(e, off, 0, false)
+		cur = r.node(cur, "Price", map[string]interface{}{"asset": off + 1, "kind": 0}, nil, fx.project(e))
+		send("ucmdx")
+		for i := 0; i < 2; i++ {
+			cur = fx.block(r, e, cur, 25*time.Hour)
+		}
+		fx.setPrice(e, off, fx.cfg.Assets[off].Twa, true)
+		cur = r.node(cur, "Price", map[string]interface{}{"asset": off + 1, "kind": 1}, nil, fx.project(e))
+	}
 	for k := 0; k < steps; k++ {
 		switch rng.Weighted([]int{12, 22, 10, 34, 4, 3, 6, 9, 3}) {
 		case 0: // create gauge
